@@ -56,6 +56,7 @@ var sqlOf = map[string]string{
 	"MA": "set sql_mode='ANSI_QUOTES'",
 	"MB": "set sql_mode='BAD'",
 	"L5": "set sql_select_limit=5",
+	"L9": "set sql_select_limit=9",
 	"LD": "set sql_select_limit=default",
 	"TZ": "set time_zone='+08:00'",
 	"CV": "set innodb_lock_wait_timeout=7",
@@ -305,7 +306,7 @@ func (w *world) key(hist []Ev) string {
 		if st, ok := w.r.fake.StateOf(c.ID); ok {
 			actual = st.String()
 		}
-		fmt.Fprintf(&sb, "<closed=%v belief=%s/%s{%s} actual=%s>", c.Closed, c.Charset, c.Coll, renderMap(c.Vars), actual)
+		fmt.Fprintf(&sb, "<closed=%v belief=%s/%s{%s} unused=%v actual=%s>", c.Closed, c.Charset, c.Coll, renderMap(c.Vars), c.Unused, actual)
 	}
 	return sb.String()
 }
@@ -316,7 +317,7 @@ func (w *world) key(hist []Ev) string {
 // settings as the proxy holds them (charset, collation, session variables; nothing else of
 // a SessionExecutor changes under this alphabet) and its reference state, (b) the pool
 // queue: for each parked connection, in queue order, the proxy's belief (charset,
-// collation, variables; the 'unused' set is asserted empty between commands) and the real
+// collation, variables, variables queued for a reset to DEFAULT) and the real
 // backend state, empty slots, (c) the pending injected rejection and the faults used so
 // far (the budget). Connection ids are not part of the key (renamed away).
 func replay(cfg Config, hist []Ev) (res xstate.Result, trace []string) {
@@ -361,13 +362,22 @@ func replay(cfg Config, hist []Ev) (res xstate.Result, trace []string) {
 				comps, dirs := diff(ref, si.backend.State)
 				res.Violation = fmt.Sprintf("query of c%d ran on a backend connection in state %s, but the client's settings are %s", e.S, si.backend.State, ref)
 				res.Features = map[string]string{
-					"component":      strings.Join(comps, "+"),
-					"direction":      strings.Join(uniq(dirs), "+"),
+					"component":    strings.Join(comps, "+"),
+					"direction":    strings.Join(uniq(dirs), "+"),
 					"rejected_set": rejKind,
 					// mechanism: did the proxy believe something wrong about this connection
 					// before the query / does its session object still hold the client's settings
 					"stale_belief": fmt.Sprint(stale[si.backend.Conn]),
 					"session_lost": w.sessionLost(e.S),
+					// every differing component is a setting the proxy's session object lost
+					"explained_by_session_lost": fmt.Sprint(explainedByLost(comps, dirs, w.sessionLost(e.S))),
+					// ... or a setting the proxy's session object still holds although a later
+					// SET of the client has overridden it
+					// every differing component is a character_set_* variable that the backend
+					// holds at the SERVER default (the trace of '= DEFAULT' after SET NAMES)
+					"charset_var_at_server_default": fmt.Sprint(charsetVarAtDefault(comps, si.backend.State)),
+					"session_extra":                 w.sessionExtra(e.S),
+					"explained_by_session_extra":    fmt.Sprint(explainedByExtra(comps, dirs, w.sessionExtra(e.S))),
 				}
 				return res, trace
 			}
@@ -464,6 +474,69 @@ func (w *world) sessionLost(i int) string {
 	return strings.Join(lost, "+")
 }
 
+// sessionExtra names the settings the proxy's session object holds although the client's
+// reference state does not contain them (a SET that a later statement has overridden).
+func (w *world) sessionExtra(i int) string {
+	ref := w.model[i].Snapshot()
+	_, _, vars := server.VerifSessionState(w.ses[i])
+	var extra []string
+	for k := range vars {
+		if strings.HasPrefix(k, "@") {
+			if _, ok := ref.UserVars[k[1:]]; !ok {
+				extra = append(extra, "uservar:"+k[1:])
+			}
+		} else if _, ok := ref.Vars[k]; !ok {
+			extra = append(extra, "var:"+k)
+		}
+	}
+	if len(extra) == 0 {
+		return "none"
+	}
+	sort.Strings(extra)
+	return strings.Join(extra, "+")
+}
+
+func explainedByExtra(comps, dirs []string, extra string) bool {
+	if extra == "none" {
+		return false
+	}
+	set := map[string]bool{}
+	for _, l := range strings.Split(extra, "+") {
+		set[l] = true
+	}
+	for i, c := range comps {
+		if !set[c] || dirs[i] != "not_requested_but_set_on_backend" {
+			return false
+		}
+	}
+	return true
+}
+
+func charsetVarAtDefault(comps []string, got fakemysql.Snapshot) bool {
+	for _, c := range comps {
+		if !strings.HasPrefix(c, "var:character_set_") || got.Vars[strings.TrimPrefix(c, "var:")] != "utf8mb4" {
+			return false
+		}
+	}
+	return len(comps) > 0
+}
+
+func explainedByLost(comps, dirs []string, lost string) bool {
+	if lost == "none" {
+		return false
+	}
+	set := map[string]bool{}
+	for _, l := range strings.Split(lost, "+") {
+		set[l] = true
+	}
+	for i, c := range comps {
+		if !set[c] || dirs[i] != "requested_but_default_on_backend" {
+			return false
+		}
+	}
+	return true
+}
+
 func uniq(xs []string) []string {
 	m := map[string]bool{}
 	var out []string
@@ -529,13 +602,14 @@ func main() {
 	}
 	setup(workers)
 	_ = context.Background
-	small := []string{"N1", "N2", "MB", "L5", "LD", "U1", "Q"}
-	full := []string{"N0", "N1", "N2", "MA", "MB", "L5", "LD", "TZ", "CV", "U1", "UN", "CR", "Q"}
+	small := []string{"N1", "N2", "MB", "L5", "L9", "LD", "U1", "Q"}
+	full := []string{"N0", "N1", "N2", "MA", "MB", "L5", "L9", "LD", "TZ", "CV", "U1", "UN", "CR", "Q"}
 	var cfgs []Config
 	if r.Quick() {
 		cfgs = []Config{
 			{Name: "2clients-cap1", Sessions: 2, Capacity: 1, Cmds: small, Faults: 1, Depth: 5},
 			{Name: "2clients-cap2", Sessions: 2, Capacity: 2, Cmds: small, Faults: 1, Depth: 4},
+			{Name: "2clients-cap1-charset-vars", Sessions: 2, Capacity: 1, Cmds: []string{"CR", "N0", "N2", "Q"}, Faults: 0, Depth: 5},
 		}
 	} else {
 		cfgs = []Config{
